@@ -135,7 +135,7 @@ func c11ReadIndex(c *Check) {
 		spec := bfAnd(bfCmp(&Sym{K: KBuiltin, Name: "len", Args: []*Sym{indexSym(v, 0)}}, "==", constSym(1)),
 			bfCmp(&Sym{K: KBuiltin, Name: "len", Args: []*Sym{indexSym(v, 1)}}, "==", constSym(0)))
 		for _, ret := range returnsOf(ifi) {
-			code := ifi.valueBF(ret.Results[0], 0)
+			code := ifi.valueBF(ifi.RetVal(ret, 0), 0)
 			ok, why := bfEquiv(code, spec)
 			c.Result(ok, "C11.Q", "IsSingleton", fnName(isSingleton), p.site(ret), "len(Voters[0]) == 1 && len(Voters[1]) == 0", code.String()+" "+why)
 		}
@@ -151,7 +151,7 @@ func c11ReadIndex(c *Check) {
 		cfi := p.Info(committedInTerm)
 		r := cfi.Sym(committedInTerm.Params[0])
 		for _, ret := range returnsOf(cfi) {
-			v := cfi.Sym(ret.Results[0])
+			v := cfi.RetSym(ret, 0)
 			ok := v.K == KBin && v.Name == "==" && (v.Args[1].Key() == FieldOf(r, termF).Key() || v.Args[0].Key() == FieldOf(r, termF).Key()) &&
 				strings.Contains(v.Key(), ".term("+FieldOf(FieldOf(r, raftLogF), committedF).Key()+")")
 			c.Result(ok, "C11.T", "committedEntryInCurrentTerm", fnName(committedInTerm), p.site(ret), "term(committed) == r.Term", v.Key())
@@ -298,7 +298,7 @@ func c11ReadIndex(c *Check) {
 		} else {
 			delta := &Sym{K: KBin, Name: "-", Args: []*Sym{newC, FieldOf(ro, confirmedF)}}
 			for _, ret := range returnsOf(mfi) {
-				v := mfi.Sym(ret.Results[0])
+				v := mfi.RetSym(ret, 0)
 				if v.K == KNil {
 					continue
 				}
